@@ -80,6 +80,46 @@ def check_vector(P, ver, s):
         judge(P, ver, prefix, rh.split("/", 1)[1], "rh_vector", case)
 
 
+PRECALLS = {
+    "clean_noprefix": lambda o: o.clean_vector(output_prefix=False),
+    "clean_prefix": lambda o: o.clean_vector(output_prefix=True),
+    "as_json": lambda o: o.as_json(sort=True, minimal=True),
+    "hash_eq": lambda o: (hash(o), o == o),
+    "scores": lambda o: (o.scores(), o.severities()),
+    "rh": lambda o: o.rh_vector(),
+    "subvectors": lambda o: (o.temporal_vector(), o.environmental_vector()),
+}
+
+
+def check_vector_after(P, ver, s, precalls):
+    """The strings emitted AFTER other accessors were called on the same instance are
+    judged as well (an emitted string must be valid whatever was called before)."""
+    L = lib()
+    P.evaluations += 1
+    case = {"ver": ver, "vector": s, "precalls": precalls}
+    ok, o = obs.call(L.CLS[ver], s)
+    if not ok:
+        return
+    for name in precalls:
+        if ver == "2" and name in ("clean_noprefix", "clean_prefix"):
+            continue
+        if ver == "4" and name == "subvectors":
+            continue
+        obs.call(PRECALLS[name], o)
+    prefix = T.split_prefix(ver, s)[0]
+    ok, c = obs.call(o.clean_vector)
+    if ok:
+        judge(P, ver, prefix, c, "clean_vector", case)
+    ok, rh = obs.call(o.rh_vector)
+    if ok and isinstance(rh, str) and "/" in rh:
+        judge(P, ver, prefix, rh.split("/", 1)[1], "rh_vector", case)
+    if ver != "2":
+        ok, c2 = obs.call(lambda: o.clean_vector(output_prefix=True))
+        if ok:
+            judge(P, ver, prefix, c2, "clean_vector", case)
+    P.stratum("emitted-after-other-accessor-calls")
+
+
 def check_dialogue(P, vtag, all_metrics, answers):
     P.evaluations += 1
     ver = DLG.VER_OF[vtag]
@@ -95,6 +135,8 @@ def check_case(P, case):
     if "dialogue" in case:
         d = case["dialogue"]
         check_dialogue(P, d["version"], d["all_metrics"], d["answers"])
+    elif "precalls" in case:
+        check_vector_after(P, case["ver"], case["vector"], case["precalls"])
     else:
         check_vector(P, case["ver"], case["vector"])
 
@@ -135,6 +177,10 @@ def shard_vectors(P, ver, prefix, all_values, n_random, seed):
         P.dist((ver, s))
         P.stratum("v%s:optional-defined:%s" % (ver, len(sh) if len(sh) < 3 else "3+"))
         check_vector(P, ver, s)
+        names = sorted(PRECALLS)
+        check_vector_after(P, ver, s, [rng.choice(names)])
+        if rng.random() < 0.3:
+            check_vector_after(P, ver, s, [rng.choice(names) for _ in range(rng.randint(2, 4))])
         if P.evaluations % 1501 == 1:
             P.sample({"ver": ver, "vector": s})
 
@@ -162,6 +208,11 @@ def shard_dialogue(P, vtag, all_metrics, n, seed):
         check_dialogue(P, vtag, all_metrics, answers)
         if P.evaluations % 301 == 1:
             P.sample({"dialogue": {"version": vtag, "all_metrics": all_metrics, "answers": answers}})
+    # end of input at every index: whatever the builder RETURNS must still be valid
+    full = DLG.script_for(order, targets[0])
+    for i in range(len(full) + 1):
+        P.stratum("dialogue-truncated")
+        check_dialogue(P, vtag, all_metrics, full[:i])
 
 
 def run(R):
